@@ -529,6 +529,55 @@ func c11Unknown(chk *fw.Check) (evals int) {
 }
 
 // RunC11 is the entry point of the C11 check.
+// c11SameKeyOtherName: one CA key, two CA certificates with different names (the CA was re-certified under a new name,
+// its key kept): both carry the same subject key identifier, so their clients' certificates carry the same authority
+// key identifier - and the same serial numbers may occur under both names. The list of the old name lists serial 4711;
+// the certificate 4711 of the new name is on no list. Both orders of asking, both backends.
+func c11SameKeyOtherName(chk *fw.Check) (evals int) {
+	p := world.Std()
+	oldName := world.Issue(p.Root, world.CertOpt{CN: "c11 issuing CA G1", IsCA: true, KeyKind: "ec", KeyIdx: 6, Serial: big.NewInt(71)})
+	newName := world.Issue(p.Root, world.CertOpt{CN: "c11 issuing CA", IsCA: true, KeyKind: "ec", KeyIdx: 6, Serial: big.NewInt(72)})
+	if string(oldName.Cert.SubjectKeyId) != string(newName.Cert.SubjectKeyId) || string(oldName.Cert.RawSubject) == string(newName.Cert.RawSubject) {
+		panic("c11 cast: the two CA certificates are expected to share the key identifier and differ in name")
+	}
+	const urlOld, urlNew = "http://crl.test/c11-g1.crl", "http://crl.test/c11-renamed.crl"
+	listedOld := world.Leaf(oldName, bi(4711), []string{urlOld}, nil)
+	sameSerialNew := world.Leaf(newName, bi(4711), []string{urlNew}, nil)
+	for _, disk := range []bool{false, true} {
+		for _, newFirst := range []bool{false, true} {
+			evals++
+			disk, newFirst := disk, newFirst
+			seqWorld(func() {
+				w := NewCW(CWOpt{Disk: disk, SigMode: config.SignatureValidationModeVerify})
+				defer os.RemoveAll(w.Dir)
+				if err := w.Provision(); err != nil {
+					panic(err)
+				}
+				vsched.Drain()
+				w.Net.Serve(urlOld, "g1", world.SimpleCRL(oldName, 1, 4711).DER())
+				w.Net.Serve(urlNew, "renamed", world.SimpleCRL(newName, 1, 4999).DER())
+				ask := func(l *world.Ident, ca *world.Ident) string { return w.Lookup(l, world.Chain(l, ca, p.Root)).String() }
+				var a, b string
+				if newFirst {
+					b = ask(sameSerialNew, newName)
+					a = ask(listedOld, oldName)
+					b = b + "," + ask(sameSerialNew, newName)
+				} else {
+					a = ask(listedOld, oldName)
+					b = ask(sameSerialNew, newName)
+					b = b + "," + ask(sameSerialNew, newName)
+				}
+				if a != "REVOKED" || b != "OK,OK" {
+					chk.Violation(fmt.Sprintf("C11|other-issuer-same-key-identifier|%s", be(disk)),
+						fmt.Sprintf("two CA certificates with one key and different names; the old name's list names serial 4711 (new name asked first: %v): certificate 4711 of the old name reads %s (expected REVOKED), certificate 4711 of the new name reads %s (expected OK,OK)", newFirst, a, b), nil)
+				}
+				w.Chk.Cleanup()
+			})
+		}
+	}
+	return
+}
+
 func RunC11(tier string, args []string) int {
 	if len(args) > 0 && args[0] == "hworker" {
 		wtier := args[1]
@@ -589,7 +638,9 @@ func RunC11(tier string, args []string) int {
 	ev, nt, samples := c11Neighbourhood(chk)
 	ev += c11Teletex(chk) + c11Unknown(chk)
 	total := runHWorkers(chk, "C11", tier, 16)
+	sameKeyCases := c11SameKeyOtherName(chk)
 	cov := fw.Coverage{
+		"same_key_other_name_cases": sameKeyCases,
 		"states":                        total.Stats.States + ev,
 		"transitions":                   total.Stats.Transitions + ev,
 		"traces_validated_against_impl": total.Stats.Transitions + ev,
